@@ -139,21 +139,22 @@ def parse_value(s):
 
 
 def find_tagged(output, tag):
-    """All PrintT'ed tuples whose first element is the string `tag` (bracket matching, multi-line safe)."""
+    """All PrintT'ed tuples whose first element is the string `tag` (bracket matching; TLC pretty-prints long
+    values over several lines and may put a space after `<<`)."""
     out = []
-    needle = '<<"' + tag + '"'
+    pat = re.compile(r'<<\s*"' + re.escape(tag) + '"')
     i = 0
     while True:
-        j = output.find(needle, i)
-        if j < 0:
+        m = pat.search(output, i)
+        if not m:
             return out
         p = _P(output)
-        p.i = j
+        p.i = m.start()
         try:
             out.append(p.value())
             i = p.i
         except (ValueError, IndexError):
-            i = j + 2
+            i = m.start() + 2
 
 
 # ----------------------------------------------------------------------------- running TLC
